@@ -184,8 +184,25 @@ def case(ctx):
             sb, sa = {"t": rng.choice(["empty", "whole"])}, {"t": rng.choice(["empty", "whole"])}
         expected = (sb["t"] == "empty") or (sa["t"] == "whole")
         how = "%s in %s" % (sb["t"], sa["t"])
+    elif mode == "random" and rng.random() < 0.3:
+        # two unbounded simple shapes (exteriors) whose bounded complements are close to each
+        # other: boxes overlap, complements disjoint / nested / crossing
+        from vf.checks.c07 import flip
+
+        num = rng.choice(["int", "frac", "float"])
+        p1, _ = G.random_polygon(rng, num, (0, 0), 10.0, family=rng.choice(["triangle", "rectilinear", "star"]))
+        d = rng.choice([6.0, 9.0, 12.0, 16.0])
+        ang = rng.uniform(0, math.tau)
+        off = (d * math.cos(ang), d * math.sin(ang))
+        if num == "int":
+            off = (round(off[0] * 3), round(off[1] * 3))
+        p2, _ = G.random_polygon(rng, num, off, rng.choice([2.0, 4.0, 8.0]) if num != "int" else 12.0, family=rng.choice(["triangle", "convex", "star"]))
+        sa, sb = flip(p1), flip(p2)
+        if rng.random() < 0.5:
+            sa, sb = sb, sa
+        how = "exteriors of two polygons"
     else:
-        sa, sb, info = W.make_pair(rng, curved_prob=0.0, kinds="SSSSCCDDUUV")
+        sa, sb, info = W.make_pair(rng, curved_prob=0.0, kinds="SSSSCCDDNUUV")
     case = Case(ctx, {"B": sb, "A": sa, "how": how}, "%s-%s" % (mode, "curved" if (G.spec_is_curved(sa) or G.spec_is_curved(sb)) else G.spec_num(sa)))
     A, B = G.build(sa), G.build(sb)
     ra, rb = S.snap_shape(A), S.snap_shape(B)
